@@ -217,7 +217,10 @@ def _worker_main():  # pragma: no cover - runs in the subprocess
                           "slice_no": case["slice_no"][0]}
                 if acss is not None:
                     sample["acs_mask"] = acss[0]
+            before = {k_: v.clone() for k_, v in sample.items() if isinstance(v, torch.Tensor)}
+            handed = dict(sample)
             out = call(sample)
+            res["mutated"] = sorted(skey(k_) for k_, v in before.items() if handed[k_].shape != v.shape or not torch.equal(handed[k_], v))
             im, tm = out["input_sampling_mask"], out["target_sampling_mask"]
             kk_ = case.get("kkey", "masked_kspace")
             for need_ in ("input_" + kk_, "target_" + kk_):
@@ -540,7 +543,10 @@ def _worker_main():  # pragma: no cover - runs in the subprocess
         sample, mshape, kshape = hist_sample(case, smps, dims, batched, kkey)
         r = {"n": len(smps)}
         try:
+            before = {k_: v.clone() for k_, v in sample.items() if isinstance(v, torch.Tensor)}
+            handed = dict(sample)
             out = (sp if batched else call)(sample)
+            r["mutated"] = sorted(str(k_) for k_, v in before.items() if handed[k_].shape != v.shape or not torch.equal(handed[k_], v))
             im, tm = out["input_sampling_mask"], out["target_sampling_mask"]
             for need_ in ("input_" + kkey, "target_" + kkey):
                 if need_ not in out:
@@ -1678,6 +1684,9 @@ def _check(case, res):
             if res.get("input2") is None or res["input2"][b] != i or res["target2"][b] != t:
                 yield (f"{kind}-split-not-deterministic",
                        "same mask / file name / slice, different call history: different split")
+    if res.get("mutated"):
+        yield (f"{kind}-forward-mutates-input", f"forward changed the tensors it was handed in place: {res['mutated']} (the sampling "
+               "mask / k-space / ACS mask of the sample are the originals the split is defined against)")
     if kind == "gauss":
         for c in res.get("calls", []):
             if c["n"] + 1 > c["free"] and c["n"] >= 0:
